@@ -9,6 +9,7 @@ mod lexmode;
 mod pipemode;
 mod sexp;
 mod coremode;
+mod tymode;
 
 fn main() {
     let args: Vec<String> = std::env::args().collect();
@@ -58,6 +59,9 @@ fn dispatch(mode: &str, payload: &str) -> String {
         "lex" => lexmode::lex(payload),
         "pipe" => pipemode::pipe(payload),
         "core" => coremode::print(payload),
+        "tysup" => tymode::sup(payload),
+        "tyunion" => tymode::union(payload),
+        "tyclasses" => tymode::classes(payload),
         "multi" => pipemode::multi(payload),
         _ => format!("BADMODE {mode}"),
     }
